@@ -24,6 +24,7 @@ import IgrisModel.C10.Lemmas
 import IgrisModel.C10.LemmasZones
 import IgrisModel.C10.LemmasIter
 import IgrisModel.C10.LemmasPtr
+import IgrisModel.C10.LemmasAddr
 namespace Igris.C10
 
 /-! ## Fixed-block pools (pool_head / igris::pool / static_object_pool)
@@ -894,5 +895,678 @@ example : ∃ x, mrunE ⟨⟨[32, 16]⟩, [64, 48], [⟨16, 64, 16⟩]⟩ [.enga
     48 ∈ x.1.live ∧ x.2.length = 7 ∧ (∀ z ∈ x.1.zones, 8 ≤ z.elemsz) := ⟨_, rfl, by decide, by decide, by decide⟩
 example : ∃ p, sxrun 16 (SOPx.init 12 4 2) [.create, .create, .engage 64 2, .create, .destroy 16, .create] = some p ∧
     p.sop.objs = [16, 80, 0] ∧ p.ctor = [16, 80, 0, 16] ∧ p.dtor = [16] := ⟨_, rfl, by decide⟩
+
+
+/-! ## Extension round 3
+
+### 64-bit ADDRESSES (pointer wrap-around)
+
+All heap theorems above speak about offsets from `__malloc_heap_start` in `Nat`.  The
+code computes with 64-bit pointers.  `base` = the address of the heap start; `mallocA` /
+`reallocA` (what the driver runs) = the routines with the pointer comparisons of the C
+code evaluated modulo 2⁶⁴, after `fix: malloc() refuses a request that would move the
+break across the top of the address space`; `mallocOrigA` = step 3 as it was. -/
+
+/-- realloc's `cp = (char *)ptr + len; if (cp < cp1) return 0;` on 64-bit pointers
+(`cp1 = ptr − 8`) fires EXACTLY when `ptr + len` does not fit 64 bits — for every payload
+pointer (≥ 8) and every rounded request (below `2⁶⁴ − 8`) -/
+theorem heap_addr_wrap_test_exact (ptr len : BitVec 64) (hp : 8 ≤ ptr.toNat) (hl : len.toNat < 2 ^ 64 - 8) :
+    (ptr + len < ptr - 8#64) ↔ 2 ^ 64 ≤ ptr.toNat + len.toNat := by
+  have h1 := ptr.isLt
+  have h2 := len.isLt
+  simp only [BitVec.lt_def, BitVec.toNat_add, BitVec.toNat_sub, BitVec.toNat_ofNat]
+  have : (2 : Nat) ^ 64 = 18446744073709551616 := by decide
+  rw [this] at *
+  omega
+
+/-- the model's test is that comparison -/
+theorem heap_addr_wrap_test_model (base p len : Nat) (hb : base + p < 2 ^ 64) (h8 : 8 ≤ p) (hl : len < 2 ^ 64) :
+    reallocWrapTest base p len =
+      decide (BitVec.ofNat 64 (base + p) + BitVec.ofNat 64 len < BitVec.ofNat 64 (base + p) - 8#64) := by
+  simp only [reallocWrapTest, BitVec.lt_def, BitVec.toNat_add, BitVec.toNat_sub, BitVec.toNat_ofNat]
+  have : (2 : Nat) ^ 64 = 18446744073709551616 := by decide
+  rw [this] at *
+  congr 1
+  apply propext
+  constructor <;> intro h <;> omega
+
+/-- EXACT precondition under which the offset model is the code (malloc): the repaired
+routine refuses precisely the requests that reach step 3 without a heap end and whose new
+chunk would cross the top of the address space; every other request is served exactly as
+by the unbounded model (so every theorem above transfers), a refused one changes nothing -/
+theorem heap_addr_malloc_transfer (base : Nat) (cfg : Cfg) (h : Heap) (n : Nat) (hb : base + h.brk ≤ SIZE_MAX) :
+    (mallocRefusesA base cfg h n = true ↔
+      cfg.lim = 0 ∧ reachesStep3 cfg h n = true ∧ SIZE_MAX < base + h.brk + (minLen (roundLen cfg.W n) + 8)) ∧
+    (mallocRefusesA base cfg h n = false → mallocA base cfg h n = malloc64 cfg h n) ∧
+    (mallocRefusesA base cfg h n = true → mallocA base cfg h n = ⟨h, none, []⟩) := by
+  refine ⟨?_, fun hf => ?_, fun ht => ?_⟩
+  · simp only [mallocRefusesA, Bool.and_eq_true, beq_iff_eq, brkWraps_iff base h _ hb]
+    constructor
+    · rintro ⟨⟨a, b⟩, c⟩; exact ⟨a, b, c⟩
+    · rintro ⟨a, b, c⟩; exact ⟨⟨a, b⟩, c⟩
+  · unfold mallocA malloc64; simp [hf]
+  · unfold mallocA; simp [ht]
+
+/-- EXACT precondition (iff) under which the offset model IS the code: the C code compares
+64-bit POINTERS (`fp1 < fpnew` in free, `cp <= __brkval` and `cp > __malloc_heap_end` at the
+heap end, `cp < cp1` in realloc), the model compares offsets.  The address of offset `x` is
+`(base + x) mod 2⁶⁴`.  Address order coincides with offset order on everything up to the
+break IF AND ONLY IF `base + brk < 2⁶⁴` — which `heap_addr_history` proves for every state
+the repaired code can reach (and `heap_addr_wrap_witness` refutes for the code as it was). -/
+theorem heap_addr_order_iff (base brk : Nat) (hbrk : 0 < brk) :
+    (∀ x y, x ≤ brk → y ≤ brk → (x < y ↔ (base + x) % 2 ^ 64 < (base + y) % 2 ^ 64)) ↔
+      base % 2 ^ 64 + brk < 2 ^ 64 := by
+  have h64 : (2 : Nat) ^ 64 = 18446744073709551616 := by decide
+  rw [h64]
+  constructor
+  · intro hall
+    by_cases hbig : 18446744073709551616 ≤ brk
+    · have := (hall 0 18446744073709551616 (by omega) hbig).1 (by omega)
+      omega
+    · have := (hall 0 brk (by omega) (Nat.le_refl _)).1 hbrk
+      omega
+  · intro hno x y hx hy
+    omega
+
+/-- FULL STATEMENT ("overlaps no other live block", all request sizes) violated by the
+routine as it was.  Arena at address 2⁴⁶, no heap end: `malloc(64)`; `malloc(2⁶⁴ − 64)`
+moves the break from offset 72 BACK to offset 16 and returns a "block" of 2⁶⁴ − 64 bytes;
+the next `malloc(8)` is carved out at offset 16 — inside the payload of the first block,
+which is still live.  The repaired routine answers NULL and changes nothing. -/
+theorem heap_addr_wrap_witness :
+    let cfg : Cfg := ⟨64, 0⟩
+    let base := 2 ^ 46
+    let h1 := (malloc cfg Heap.init 64).h
+    let r2 := mallocOrigA base cfg h1 (2 ^ 64 - 64)
+    r2.ret = some 80 ∧ r2.h.brk = 16 ∧
+    (malloc cfg r2.h 8).ret = some 24 ∧ (0, 64) ∈ (malloc cfg r2.h 8).h.live ∧
+    (16, 64) ∈ (malloc cfg r2.h 8).h.live ∧ ¬ Disj (0, 64) (16, 64) ∧
+    mallocA base cfg h1 (2 ^ 64 - 64) = ⟨h1, none, []⟩ := by
+  refine ⟨by decide, by decide, by decide, by decide, by decide, ?_, by decide⟩
+  simp [Disj]
+
+/-- WHOLE HISTORIES on 64-bit addresses: for every arena address `base` (with the
+configured heap end, if any, below `2⁶⁴`), every history of malloc / free / realloc with
+`size_t` request sizes leads to a state the unbounded model reaches too (so `heap_inv`,
+`heap_no_clobber`, … hold for it), and no address of any chunk — header, payload, the
+break itself — wraps: the offsets ARE the addresses.  (`W` a power of two ≥ 16: the wrap
+test of realloc needs `len < 2⁶⁴ − 8`.) -/
+theorem heap_addr_history (base : Nat) (cfg : Cfg) (ok : CfgOK cfg) (hWd : cfg.W ∣ 2 ^ 64) (hW16 : 16 ≤ cfg.W)
+    (hbase : base ≤ SIZE_MAX) (hlim : cfg.lim ≠ 0 → base + cfg.lim ≤ SIZE_MAX)
+    (ops : List Op) (h : Heap) (hsz : ∀ op ∈ ops, op.sizeOK) (hr : runA base cfg Heap.init ops = some h) :
+    Reach cfg h ∧ base + h.brk ≤ SIZE_MAX ∧ ∀ c ∈ h.flp ++ h.live, base + (c.1 + 8 + c.2) ≤ SIZE_MAX := by
+  have hi0 : AInv base cfg Heap.init := ⟨HInv.init cfg, by simpa [Heap.init] using hbase⟩
+  obtain ⟨hi, hreach⟩ := runA_inv base cfg ok hWd hW16 ops Heap.init h hsz hi0 ⟨[], rfl⟩ hlim hr
+  refine ⟨hreach, hi.top, fun c hc => ?_⟩
+  have := hi.inv.fin_le_brk (List.mem_append.1 hc)
+  have := hi.top
+  omega
+
+example : ∃ h, runA (2 ^ 46) ⟨64, 0⟩ Heap.init [.malloc 64, .malloc (2 ^ 64 - 64), .realloc (some 8) (2 ^ 64 - 64),
+    .malloc 8] = some h ∧ h.brk = 144 := ⟨_, rfl, by decide⟩
+example : (64 : Nat) ∣ 2 ^ 64 := ⟨2 ^ 58, by decide⟩
+
+/-! ### Alignment: 8 bytes is what holds; `alignof(max_align_t) = 16` (LP64 host) does not -/
+
+/-- FULL STATEMENT ("aligned for its use" = suitably aligned for any object, i.e. for
+`max_align_t`) fails on a host where `alignof(max_align_t) = 16`: the very first block of a
+fresh heap has its payload at offset 8 of the (64-aligned) arena.  What holds is 8-byte
+alignment (`malloc_returns_valid_block`, `heap_inv.aligned`): the alignment of `max_align_t` on
+the 32-bit targets of the port.  Finding `C10-heap-align-max-align-t`. -/
+theorem heap_max_align_witness :
+    (malloc ⟨64, 0⟩ Heap.init 1).ret = some 8 ∧ 8 % 16 ≠ 0 ∧ 8 % 8 = 0 ∧
+    (malloc ⟨64, 0⟩ (malloc ⟨64, 0⟩ Heap.init 1).h 1).ret = some 80 ∧ 80 % 16 = 0 := by decide
+
+
+/-! ### Pools: element size (iff), zones outside `pool_engage`'s precondition -/
+
+/-- EXACT characterisation of the admissible element sizes: the link stores of `pool_engage`
+into a zone of `n ≥ 1` cells of `e` bytes all stay inside the zone IF AND ONLY IF `e ≥ 8`
+(= `sizeof(struct slist_head)`).  For every element size 1..7 — "smaller than a pointer" — the
+link of the last cell leaves the zone (`pool_elemsz_below_link_witness` is the instance `e = 4`). -/
+theorem pool_links_inside_zone_iff (e b n : Nat) (he : 0 < e) (hn : 0 < n) :
+    (∀ ev ∈ engageEvs e (b + n * e) (n * e + 1) b, ev.Inside b (b + n * e)) ↔ 8 ≤ e := by
+  constructor
+  · intro hall
+    have hle : n ≤ n * e := Nat.le_mul_of_pos_right n he
+    have hmem := engageEvs_mem e b n he (n * e + 1) 0 (n - 1) (by omega) (by omega) (by omega)
+    rw [Nat.zero_mul, Nat.add_zero] at hmem
+    have := hall _ hmem
+    simp only [Ev.Inside, Ev.lo, Ev.hi] at this
+    have h1 : (n - 1 + 1) * e = (n - 1) * e + e := by rw [Nat.add_mul, Nat.one_mul]
+    have h2 : n - 1 + 1 = n := by omega
+    rw [h2] at h1
+    omega
+  · intro h8 ev hev
+    have := engageEvs_inside e b n h8 (n * e + 1) 0 (Nat.zero_le _)
+    simp only [Nat.zero_mul, Nat.add_zero] at this
+    exact this ev hev
+
+/-- FULL STATEMENT ("inside the arena") fails for a zone that is not whole cells when the
+`assert(size % elemsz == 0)` of `pool_engage` is compiled out (`NDEBUG`): the loop
+`while (it < stop)` carves `size / elemsz + 1` cells, and the one handed out first starts
+inside the zone and ends behind it.  (With assertions the request aborts: `engageRefused`.) -/
+theorem pool_ragged_zone_last_cell_outside (size e : Nat) (he : 0 < e) (hr : size % e ≠ 0) :
+    (Pool.init.engage size e).free = (cells e (size / e + 1)).reverse ∧
+    (Pool.init.engage size e).alloc.1 = some (size / e * e) ∧
+    size / e * e < size ∧ size < size / e * e + e := by
+  have hdm := Nat.div_add_mod size e
+  have hlt := Nat.mod_lt size he
+  have hsz : size / e * e + size % e = size := by rw [Nat.mul_comm]; exact hdm
+  have hq : size / e ≤ size / e * e := Nat.le_mul_of_pos_right _ he
+  have he2 : 2 ≤ e := by
+    rcases (by omega : e = 1 ∨ 2 ≤ e) with h | h
+    · subst h; simp [Nat.mod_one] at hr
+    · exact h
+  have hq2 : size / e * 2 ≤ size / e * e := Nat.mul_le_mul_left _ he2
+  have hfree : (Pool.init.engage size e).free = (cells e (size / e + 1)).reverse := by
+    have h := engageLoop_ragged e (size / e) (size % e) (by omega) hlt (size + 1) 0 []
+    rw [Nat.zero_mul, hsz] at h
+    have h2 := engageLoop_eq e (size / e + 1) he (size + 1) 0 [] (by omega) (by omega)
+    simp only [Nat.zero_mul, Nat.sub_zero, List.append_nil] at h2
+    simp only [Pool.engage, Pool.init, h, h2, cells, List.range_eq_range']
+  refine ⟨hfree, ?_, by omega, by omega⟩
+  simp only [Pool.alloc, hfree, cells, List.range_succ, List.map_append, List.map_cons, List.map_nil,
+    List.reverse_append, List.reverse_cons, List.reverse_nil, List.nil_append, List.cons_append]
+
+/-- the same on numbers: a 20-byte zone with 8-byte cells -/
+theorem pool_ragged_zone_witness :
+    (Pool.init.engage 20 8).free = [16, 8, 0] ∧ ¬ (16 + 8 ≤ 20) ∧ engageRefused 20 8 = true := by decide
+
+/-- INADMISSIBLE: `pool_engage` of a zone that overlaps cells the pool already owns (here: the
+same 16-byte zone twice).  Nothing in the code notices.  List level: every cell is on the
+free list twice — `avail` reports 4 for 2 cells and the 3rd `pool_alloc` hands out the cell of
+the 1st again.  Pointer level (what the code really does): the second `slist_add` of a node
+that is already linked closes a cycle `8 → 0 → 8 → …` that no longer contains the head:
+`pool_avail` never terminates (it runs out of any fuel).  The histories reject the request. -/
+theorem pool_overlapping_zone_witness :
+    (engageTwice 16 8).free = [8, 0, 8, 0] ∧ (engageTwice 16 8).avail = 4 ∧
+    (engageTwice 16 8).alloc.2.alloc.2.alloc.1 = (engageTwice 16 8).alloc.1 ∧
+    mstep ⟨Pool.init.engage 16 8, [], [⟨0, 16, 8⟩]⟩ (.engage 0 16 8) = none ∧
+    (let m := engageAtP (engageAtP (slistInit (fun _ => 0) 100) 100 0 16 8) 100 0 16 8
+     m 8 = 0 ∧ m 0 = 8 ∧ slistSize m 100 50 = 50) := by decide
+
+/-! ### The twins on the same clauses: igris::pool and static_object_pool hand out exactly
+their capacity before null (so far stated for `pool_head` only) -/
+
+/-- igris::pool: `get()` answers null exactly when all `n` cells are handed out -/
+theorem ipool_null_iff_exhausted (e n : Nat) (he : 0 < e) (ops : List IOp) (s : IState)
+    (hr : irun ⟨IPool.init (n * e) e, []⟩ ops = some s) : s.pool.get.1 = none ↔ s.live.length = n := by
+  obtain ⟨hp, _, _, _⟩ := irun_inv he (IInv.init e n he) hr
+  have hf := (PInv.facts he hp).2.2.2.2
+  simp only at hf
+  simp only [IPool.get, Pool.alloc]
+  cases hfr : s.pool.head.free with
+  | nil => simp [hfr] at hf ⊢; exact hf
+  | cons c rest => simp [hfr] at hf ⊢; omega
+
+/-- igris::pool: `k` calls of `get()` on a fresh pool give `min k n` cells -/
+theorem ipool_exactly_capacity (e n k : Nat) (he : 0 < e) (s : IState)
+    (hr : irun ⟨IPool.init (n * e) e, []⟩ (List.replicate k .get) = some s) : s.live.length = min k n := by
+  have h1 := irun_gets k _ s hr
+  have := prun_allocs he k _ _ (IInv.init e n he).1 h1
+  simpa using this
+
+/-- static_object_pool: `create()` answers null exactly when `Capacity` objects are alive -/
+theorem sop_null_iff_exhausted (szT alT cap : Nat) (ops : List SOp) (s : SOP)
+    (hr : srun (SOP.init szT alT cap) ops = some s) : s.create.1 = none ↔ s.objs.length = cap := by
+  have he : 0 < storageSize szT alT := by have := storageSize_pos szT alT; omega
+  have hi0 : SInv (storageSize szT alT) cap (SOP.init szT alT cap) := ⟨PInv.init _ cap he, rfl⟩
+  obtain ⟨hp, _⟩ := srun_inv he hi0 hr
+  have hf := (PInv.facts he hp).2.2.2.2
+  simp only at hf
+  simp only [SOP.create, Pool.alloc]
+  cases hfr : s.head.free with
+  | nil => simp [hfr] at hf ⊢; exact hf
+  | cons c rest => simp [hfr] at hf ⊢; omega
+
+/-- static_object_pool: `k` calls of `create()` on a fresh pool construct `min k Capacity` objects -/
+theorem sop_exactly_capacity (szT alT cap k : Nat) (s : SOP)
+    (hr : srun (SOP.init szT alT cap) (List.replicate k .create) = some s) : s.objs.length = min k cap := by
+  have he : 0 < storageSize szT alT := by have := storageSize_pos szT alT; omega
+  have h1 := srun_creates k _ s hr
+  have := prun_allocs he k _ _ (PInv.init _ cap he) h1
+  simpa [SOP.init] using this
+
+/-! ### Refinement to a SET-OF-BLOCKS specification
+
+The specification knows nothing about lists, links or LIFO order: there is a fixed set of
+blocks; `alloc` may hand out ANY block that is not handed out and answers null only when all
+are; `free c` of a handed-out block makes exactly that block available again. -/
+
+/-- one `alloc` of the specification: result `r`, live set `live → live'` -/
+def SpecAlloc (blocks live : List Nat) (r : Option Nat) (live' : List Nat) : Prop :=
+  match r with
+  | none => (∀ c ∈ blocks, c ∈ live) ∧ live' = live
+  | some c => c ∈ blocks ∧ c ∉ live ∧ live' = c :: live
+
+/-- one `free c` of the specification -/
+def SpecFree (live : List Nat) (c : Nat) (live' : List Nat) : Prop := c ∈ live ∧ live' = live.erase c
+
+/-- `pool_head` refines the set-of-blocks specification (blocks = the cells `0, e, …, (n−1)e`) -/
+theorem pool_refines_block_set (e n : Nat) (he : 0 < e) (ops : List POp) (s : PState)
+    (hr : prun (freshPool e n) ops = some s) :
+    (∀ s' r, pstep s .alloc = some (s', r) → SpecAlloc (cells e n) s.live r s'.live) ∧
+    (∀ s' r c, pstep s (.free c) = some (s', r) → SpecFree s.live c s'.live) := by
+  have hi := prun_inv (PInv.init e n he) hr
+  have hsp := perm_alloc_spec (show (s.pool.free ++ s.live).Perm (cells e n) from hi) (cells_nodup e n he)
+  constructor
+  · intro s' r ha
+    simp only [pstep, Pool.alloc] at ha
+    cases hfr : s.pool.free with
+    | nil =>
+      rw [hfr] at ha; simp only [Option.some.injEq, Prod.mk.injEq] at ha
+      obtain ⟨rfl, rfl⟩ := ha
+      exact ⟨hsp.1 hfr, rfl⟩
+    | cons c rest =>
+      rw [hfr] at ha; simp only [Option.some.injEq, Prod.mk.injEq] at ha
+      obtain ⟨rfl, rfl⟩ := ha
+      have := hsp.2 c rest hfr
+      exact ⟨this.1, this.2, rfl⟩
+  · intro s' r c hf
+    simp only [pstep] at hf
+    split at hf
+    · rename_i hc
+      simp only [Option.some.injEq, Prod.mk.injEq] at hf
+      obtain ⟨rfl, _⟩ := hf
+      exact ⟨by simpa using hc, rfl⟩
+    · cases hf
+
+/-- igris::pool refines the same specification (`get` = alloc, `put` = free) -/
+theorem ipool_refines_block_set (e n : Nat) (he : 0 < e) (ops : List IOp) (s : IState)
+    (hr : irun ⟨IPool.init (n * e) e, []⟩ ops = some s) :
+    (∀ s' r, istep s .get = some (s', r) → SpecAlloc (cells e n) s.live r s'.live) ∧
+    (∀ s' r c, istep s (.put (some c)) = some (s', r) → SpecFree s.live c s'.live) := by
+  obtain ⟨hp, _, _, _⟩ := irun_inv he (IInv.init e n he) hr
+  have hsp := perm_alloc_spec (show (s.pool.head.free ++ s.live).Perm (cells e n) from hp) (cells_nodup e n he)
+  constructor
+  · intro s' r ha
+    simp only [istep, IPool.get, Pool.alloc] at ha
+    cases hfr : s.pool.head.free with
+    | nil =>
+      rw [hfr] at ha; simp only [Option.some.injEq, Prod.mk.injEq] at ha
+      obtain ⟨rfl, rfl⟩ := ha
+      exact ⟨hsp.1 hfr, rfl⟩
+    | cons c rest =>
+      rw [hfr] at ha; simp only [Option.some.injEq, Prod.mk.injEq] at ha
+      obtain ⟨rfl, rfl⟩ := ha
+      have := hsp.2 c rest hfr
+      exact ⟨this.1, this.2, rfl⟩
+  · intro s' r c hf
+    simp only [istep] at hf
+    split at hf
+    · rename_i hc
+      split at hf
+      · simp only [Option.some.injEq, Prod.mk.injEq] at hf
+        obtain ⟨rfl, _⟩ := hf
+        exact ⟨by simpa using hc, rfl⟩
+      · cases hf
+    · cases hf
+
+/-- static_object_pool refines the same specification (`create` = alloc, `destroy` = free;
+blocks = the `Capacity` cells of `sizeof(storage_type)` bytes) -/
+theorem sop_refines_block_set (szT alT cap : Nat) (ops : List SOp) (s : SOP)
+    (hr : srun (SOP.init szT alT cap) ops = some s) :
+    (∀ s' r, sstep s .create = some (s', r) → SpecAlloc (cells (storageSize szT alT) cap) s.objs r s'.objs) ∧
+    (∀ s' r c, sstep s (.destroy c) = some (s', r) → SpecFree s.objs c s'.objs) := by
+  have he : 0 < storageSize szT alT := by have := storageSize_pos szT alT; omega
+  have hi0 : SInv (storageSize szT alT) cap (SOP.init szT alT cap) := ⟨PInv.init _ cap he, rfl⟩
+  obtain ⟨hp, _⟩ := srun_inv he hi0 hr
+  have hsp := perm_alloc_spec (show (s.head.free ++ s.objs).Perm (cells (storageSize szT alT) cap) from hp)
+    (cells_nodup _ cap he)
+  constructor
+  · intro s' r ha
+    simp only [sstep, SOP.create, Pool.alloc, Option.some.injEq, Prod.mk.injEq] at ha
+    cases hfr : s.head.free with
+    | nil =>
+      rw [hfr] at ha
+      obtain ⟨rfl, rfl⟩ := ha
+      exact ⟨hsp.1 hfr, rfl⟩
+    | cons c rest =>
+      rw [hfr] at ha
+      obtain ⟨rfl, rfl⟩ := ha
+      have := hsp.2 c rest hfr
+      exact ⟨this.1, this.2, rfl⟩
+  · intro s' r c hf
+    simp only [sstep] at hf
+    split at hf
+    · rename_i hc
+      simp only [Option.some.injEq, Prod.mk.injEq] at hf
+      obtain ⟨rfl, _⟩ := hf
+      exact ⟨by simpa using hc, rfl⟩
+    · cases hf
+
+/-- one pool fed from several zones refines it too (blocks = all cells of all zones engaged so
+far; `pool_engage` of a further zone only ADDS blocks, the live set is untouched) -/
+theorem mpool_refines_block_set (ops : List MOp) (s : MState) (hr : mrun MState.init ops = some s) :
+    (∀ s' r, mstep s .alloc = some (s', r) → SpecAlloc (allCells s.zones) s.live r s'.live) ∧
+    (∀ s' r c, mstep s (.free c) = some (s', r) → SpecFree s.live c s'.live) ∧
+    (∀ s' r b sz e, mstep s (.engage b sz e) = some (s', r) →
+      s'.live = s.live ∧ ∀ c, c ∈ allCells s'.zones ↔ (c ∈ zcells ⟨b, sz, e⟩ ∨ c ∈ allCells s.zones)) := by
+  have hi := mrun_inv MInv.init hr
+  have hsp := perm_alloc_spec hi.perm (allCells_nodup hi.disj hi.wf)
+  refine ⟨?_, ?_, ?_⟩
+  · intro s' r ha
+    simp only [mstep, Pool.alloc] at ha
+    cases hfr : s.pool.free with
+    | nil =>
+      rw [hfr] at ha; simp only [Option.some.injEq, Prod.mk.injEq] at ha
+      obtain ⟨rfl, rfl⟩ := ha
+      exact ⟨hsp.1 hfr, rfl⟩
+    | cons c rest =>
+      rw [hfr] at ha; simp only [Option.some.injEq, Prod.mk.injEq] at ha
+      obtain ⟨rfl, rfl⟩ := ha
+      have := hsp.2 c rest hfr
+      exact ⟨this.1, this.2, rfl⟩
+  · intro s' r c hf
+    simp only [mstep] at hf
+    split at hf
+    · rename_i hc
+      simp only [Option.some.injEq, Prod.mk.injEq] at hf
+      obtain ⟨rfl, _⟩ := hf
+      exact ⟨by simpa using hc, rfl⟩
+    · cases hf
+  · intro s' r b sz e hf
+    simp only [mstep] at hf
+    split at hf
+    · cases hf
+    · split at hf
+      · simp only [Option.some.injEq, Prod.mk.injEq] at hf
+        obtain ⟨rfl, _⟩ := hf
+        exact ⟨rfl, fun c => by simp [allCells]⟩
+      · cases hf
+
+example : ∃ s, irun ⟨IPool.init 48 16, []⟩ (List.replicate 5 .get) = some s ∧ s.live.length = 3 := ⟨_, rfl, by decide⟩
+example : ∃ s, srun (SOP.init 12 4 3) (List.replicate 5 .create) = some s ∧ s.objs.length = 3 := ⟨_, rfl, by decide⟩
+example : SpecAlloc [0, 8, 16] [8] (some 0) [0, 8] := ⟨by decide, by decide, rfl⟩
+example : SpecAlloc [0, 8] [8, 0] none [8, 0] := ⟨by decide, rfl⟩
+
+
+/-! ### Heap: back to the initial state, maximal allocation, corner requests, bytes -/
+
+/-- "memory is not lost", as a statement about the whole state: after ANY history (any
+sizes, any interleaving, blocks freed in ANY order) that leaves no block live, the heap is
+literally the initial heap again … -/
+theorem heap_back_to_initial_state (cfg : Cfg) (ok : CfgOK cfg) (ops : List Op) (h : Heap)
+    (hr : run cfg Heap.init ops = some h) (hl : h.live = []) : h = Heap.init := by
+  obtain ⟨hb, hf⟩ := heap_returns_to_start cfg ok ops h hr hl
+  cases h; simp only [Heap.init] at *; subst hb hf hl; rfl
+
+/-- … so a maximal allocation succeeds again: on such a heap `malloc(n)` succeeds (at the
+heap start) EXACTLY when the rounded request plus its header fits the configured arena
+(always, without a heap end): no fragmentation survives the release of all blocks -/
+theorem heap_max_alloc_after_release (cfg : Cfg) (ok : CfgOK cfg) (ops : List Op) (h : Heap)
+    (hr : run cfg Heap.init ops = some h) (hl : h.live = []) (n : Nat) :
+    ((malloc cfg h n).ret = some 8 ↔ (cfg.lim = 0 ∨ minLen (roundLen cfg.W n) + 8 ≤ cfg.lim)) ∧
+    ((malloc cfg h n).ret = none ↔ ¬ (cfg.lim = 0 ∨ minLen (roundLen cfg.W n) + 8 ≤ cfg.lim)) := by
+  rw [heap_back_to_initial_state cfg ok ops h hr hl]
+  simp only [malloc, Heap.init, scan, availOf]
+  generalize minLen (roundLen cfg.W n) = len
+  by_cases hl0 : cfg.lim = 0
+  · simp [hl0]
+  · by_cases hfit : len + 8 ≤ cfg.lim
+    · have h1 : ¬ cfg.lim ≤ 0 := by omega
+      simp only [h1, if_false, Nat.sub_zero, ne_eq, hl0, not_false_eq_true, true_and, ge_iff_le, hfit,
+        and_true, false_or]
+      have : len ≤ cfg.lim := by omega
+      simp [this]
+    · have h1 : ¬ cfg.lim ≤ 0 := by omega
+      simp only [h1, if_false, Nat.sub_zero, ne_eq, hl0, not_false_eq_true, true_and, ge_iff_le, hfit,
+        and_false, false_or]
+      simp
+
+/-- the corner requests of the C standard: `free(NULL)` does nothing; `realloc(NULL, n)` is
+`malloc` of the rounded size (a valid block of at least `n` bytes when it succeeds); a model
+history rejects a double free -/
+theorem heap_corner_requests (cfg : Cfg) (ok : CfgOK cfg) (h : Heap) (n : Nat) (hr : Reach cfg h) :
+    step cfg h (.free none) = some ⟨h, none, []⟩ ∧
+    realloc cfg h none n = some (malloc cfg h (minLen (roundLen cfg.W n))) ∧
+    (∀ r q, realloc cfg h none n = some r → r.ret = some q →
+      ∃ s, r.h.live = (q - 8, s) :: h.live ∧ n ≤ s ∧ q % 8 = 0 ∧ ∀ c ∈ h.live, Disj c (q - 8, s)) ∧
+    (∀ p r, free h p = some r → free r.h p = none) := by
+  refine ⟨rfl, rfl, fun r q hre hq => ?_, fun p r hf => ?_⟩
+  · simp only [realloc, reallocCore, Option.some.injEq] at hre
+    subst hre
+    obtain ⟨s, h1, _, h3, h4, _, _, h7⟩ := malloc_returns_valid_block cfg ok h _ q hr hq
+    exact ⟨s, h1, by have := le_reqLen cfg.W n; omega, h4, h7⟩
+  · have hlive := free_live_eq hf
+    have hi := hr.inv ok
+    -- the chunk is gone from `live`: addresses of live chunks are pairwise distinct
+    unfold free
+    split
+    · rfl
+    · simp only
+      have hnone : lookup (p - 8) r.h.live = none := by
+        rw [hlive]
+        unfold free at hf
+        split at hf
+        · cases hf
+        · simp only at hf
+          split at hf
+          · cases hf
+          · rename_i sz hl
+            exact lookup_remove_none hi hl
+      rw [hnone]
+
+/-- INADMISSIBLE: a double free.  At the pointer level (what the code does) `free(p)` of a
+chunk that already is the only free-list entry links it to itself (`fpnew->nx = fp1` with
+`fp1 == fpnew`): the free list becomes cyclic and the next walk (malloc step 1) never ends. -/
+theorem heap_double_free_witness :
+    let cfg : Cfg := ⟨64, 0⟩
+    let ph2 := (mallocP cfg (mallocP cfg PHeap.init 64 1).h 64 73).h
+    let ph3 := (freeP ph2 8 145).h
+    let ph4 := (freeP ph3 8 145).h
+    walkFl ph3 50 = [(0, 64)] ∧ ph4.nxf 0 = some 0 ∧ (walkFl ph4 50).length = 50 := by decide
+
+/-- realloc preserves the common prefix ON A CONCRETE BYTE MEMORY: run the stores of the
+request (`execJ`: `memcpy` copies byte by byte, header stores write arbitrary bytes `junk`) —
+the first `min(old size, request)` bytes of the returned block are the old payload bytes,
+on all paths (in place: untouched; moved: copied before the old chunk is released) -/
+theorem realloc_bytes_preserved (cfg : Cfg) (ok : CfgOK cfg) (h : Heap) (p n sz q : Nat) (r : Res)
+    (hr : Reach cfg h) (hl : lookup (p - 8) h.live = some sz)
+    (hs : realloc cfg h (some p) n = some r) (hq : r.ret = some q) (junk : Nat → Nat) (m : Mem) :
+    ∀ i, i < min sz n → execJ junk m r.evs (q + i) = m (p + i) :=
+  realloc_preserves_prefix cfg ok h p n sz q r hr hl hs hq m _ (exec_execJ junk r.evs m)
+
+/-- … and the bytes of every OTHER live block (header and payload) are the same bytes after
+any request, on the concrete memory -/
+theorem heap_bytes_untouched (cfg : Cfg) (ok : CfgOK cfg) (h : Heap) (op : Op) (r : Res) (hr : Reach cfg h)
+    (hs : step cfg h op = some r) (c : Chunk) (hc : c ∈ h.live) (hne : op.target ≠ some (c.1 + 8))
+    (junk : Nat → Nat) (m : Mem) :
+    ∀ x, c.1 ≤ x → x < c.1 + 8 + c.2 → execJ junk m r.evs x = m x :=
+  (heap_contents_untouched cfg ok h op r hr hs c hc hne m _ (exec_execJ junk r.evs m)).2
+
+example : execJ (fun _ => 0) (fun x => x + 1) [.w 0 8, .cp 80 8 3] 81 = 10 := by decide
+
+
+/-! ### realloc: when does the block stay in place? (every neighbour configuration) -/
+
+/-- EXACT characterisation of in-place reallocation, in terms of the heap layout only: the
+block at `p` (usable size `sz`) keeps its address IF AND ONLY IF the rounded request `len`
+(1) does not exceed `sz` (no-op or shrink-split, whatever the neighbours are), or (2) the
+chunk directly ABOVE it is free and offers the missing bytes (`len − sz ≤ its sz + 8`), or
+(3) the block is the topmost chunk, no free chunk anywhere could hold the request, and the
+configured heap end (if any) is not passed.  In every other configuration — free chunk only
+BELOW, guard above, free chunk above too small, a large enough hole elsewhere, heap end
+reached — realloc answers NULL or MOVES the block (malloc + memcpy + free; `realloc_preserves_prefix`,
+`realloc_bytes_preserved`). -/
+theorem realloc_in_place_iff (cfg : Cfg) (ok : CfgOK cfg) (h : Heap) (p n sz : Nat) (r : Res)
+    (hr : Reach cfg h) (hl : lookup (p - 8) h.live = some sz) (hs : realloc cfg h (some p) n = some r) :
+    r.ret = some p ↔
+      minLen (roundLen cfg.W n) ≤ sz ∨
+      (∃ f ∈ h.flp, f.1 = p + sz ∧ minLen (roundLen cfg.W n) - sz ≤ f.2 + 8) ∨
+      (h.brk = p + sz ∧ (∀ f ∈ h.flp, f.2 < minLen (roundLen cfg.W n)) ∧
+        (cfg.lim = 0 ∨ p + minLen (roundLen cfg.W n) ≤ cfg.lim)) := by
+  obtain ⟨_, hlen8, _⟩ := reqLen_props cfg ok n
+  have hi := hr.inv ok
+  have hlive := lookup_mem hl
+  unfold realloc reallocCore at hs
+  simp only at hs
+  generalize minLen (roundLen cfg.W n) = len at *
+  split at hs
+  · cases hs
+  · rename_i hp8
+    rw [hl] at hs
+    simp only at hs
+    split at hs
+    · rename_i hle
+      have hret : r.ret = some p := by
+        split at hs
+        · simp only [Option.some.injEq] at hs; subst hs; rfl
+        · split at hs
+          · cases hs
+          · simp only [Option.some.injEq] at hs; subst hs; rfl
+      exact ⟨fun _ => Or.inl hle, fun _ => hret⟩
+    · rename_i hgt
+      split at hs
+      · rename_i fp3 hg
+        obtain ⟨hm3, ha3, hs3⟩ := growScan_inl hg
+        have hret : r.ret = some p := by
+          split at hs <;> (simp only [Option.some.injEq] at hs; subst hs; rfl)
+        exact ⟨fun _ => Or.inr (Or.inl ⟨fp3, hm3, ha3, by omega⟩), fun _ => hret⟩
+      · rename_i s hg
+        obtain ⟨hno, _, hmax, hwit⟩ := growScan_inr hg
+        have hnot2 : ¬ ∃ f ∈ h.flp, f.1 = p + sz ∧ len - sz ≤ f.2 + 8 := by
+          rintro ⟨f, hf, h1, h2⟩; exact hno f hf ⟨h1, by omega⟩
+        split at hs
+        · rename_i htop
+          split at hs
+          · rename_i hlim
+            simp only [Option.some.injEq] at hs; subst hs
+            constructor
+            · intro hc; cases hc
+            · rintro (h1 | h1 | ⟨_, _, h3⟩)
+              · omega
+              · exact absurd h1 hnot2
+              · omega
+          · rename_i hlim
+            simp only [Option.some.injEq] at hs; subst hs
+            refine ⟨fun _ => Or.inr (Or.inr ⟨htop.1, fun f hf => ?_, ?_⟩), fun _ => rfl⟩
+            · have := hmax f hf; omega
+            · by_cases h0 : cfg.lim = 0
+              · exact Or.inl h0
+              · right
+                have : ¬ p + len > cfg.lim := fun hc => hlim ⟨h0, hc⟩
+                omega
+        · rename_i hnt
+          have hnot3 : ¬ (h.brk = p + sz ∧ (∀ f ∈ h.flp, f.2 < len) ∧ (cfg.lim = 0 ∨ p + len ≤ cfg.lim)) := by
+            rintro ⟨h1, h2, _⟩
+            apply hnt
+            refine ⟨h1, ?_⟩
+            rcases hwit with hw | ⟨c, hc, hw⟩
+            · omega
+            · have := h2 c hc; omega
+          have hne : r.ret ≠ some p := by
+            split at hs
+            · simp only [Option.some.injEq] at hs; subst hs; simp
+            · rename_i memp hm
+              split at hs
+              · cases hs
+              · simp only [Option.some.injEq] at hs; subst hs
+                simp only [ne_eq, Option.some.injEq]
+                intro heq
+                obtain ⟨s2, _, h8, _, _, _, _, hdisj⟩ := malloc_returns_valid_block cfg ok h len memp hr hm
+                have := hdisj _ hlive
+                unfold Disj at this
+                simp only at this
+                subst heq
+                omega
+          constructor
+          · intro hc; exact absurd hc hne
+          · rintro (h1 | h1 | h1)
+            · omega
+            · exact absurd h1 hnot2
+            · exact absurd h1 hnot3
+
+example : ∃ r, realloc ⟨64, 0⟩ ⟨216, [(72, 64)], [(144, 64), (0, 64)]⟩ (some 8) 100 = some r ∧ r.ret = some 8 :=
+  ⟨_, rfl, by decide⟩
+example : ∃ r, realloc ⟨64, 0⟩ ⟨216, [(0, 64)], [(144, 64), (72, 64)]⟩ (some 80) 100 = some r ∧ r.ret = some 224 :=
+  ⟨_, rfl, by decide⟩
+
+
+/-- freeing EVERYTHING in ANY order: from every reachable heap, releasing the live blocks in
+an arbitrary order (any permutation of the live payload pointers) is a valid history — no
+request is rejected — and ends in the initial heap: break at the start, empty free list.
+All coalescing (up, down, both, lowering of the break) happens on the way, whatever the order. -/
+theorem heap_free_all_any_order (cfg : Cfg) (ok : CfgOK cfg) (h : Heap) (hr : Reach cfg h) (l : List Nat)
+    (hp : l.Perm (h.live.map (fun c => c.1 + 8))) :
+    run cfg h (l.map (fun p => Op.free (some p))) = some Heap.init := by
+  induction l generalizing h with
+  | nil =>
+    have hl : h.live = [] := by
+      have := hp.length_eq; simp only [List.length_nil, List.length_map] at this
+      exact List.eq_nil_of_length_eq_zero this.symm
+    obtain ⟨ops, hops⟩ := hr
+    simp only [List.map_nil, run]
+    rw [heap_back_to_initial_state cfg ok ops h hops hl]
+  | cons p l ih =>
+    have hmem : p ∈ h.live.map (fun c => c.1 + 8) := hp.mem_iff.1 (by simp)
+    have h8 : 8 ≤ p := by
+      obtain ⟨c, _, hc⟩ := List.mem_map.1 hmem
+      omega
+    have hmem' : (p - 8) + 8 ∈ h.live.map (fun c => c.1 + 8) := by
+      have : p - 8 + 8 = p := by omega
+      rw [this]; exact hmem
+    obtain ⟨sz, hl⟩ := lookup_of_mem_addr hmem'
+    obtain ⟨r, hf⟩ := free_total h8 hl
+    have hlive := free_live_eq hf
+    have hstep : step cfg h (.free (some p)) = some r := hf
+    simp only [List.map_cons, run, hstep]
+    apply ih r.h (hr.step hstep)
+    rw [hlive, map_remove]
+    have : p - 8 + 8 = p := by omega
+    rw [this]
+    have := hp.erase p
+    simpa using this
+
+example : run ⟨64, 0⟩ ⟨216, [(72, 64)], [(144, 64), (0, 64)]⟩ [.free (some 8), .free (some 152)] = some Heap.init := by decide
+
+
+/-- `realloc(p, 0)` (after `fix: realloc() enforces malloc()'s minimum chunk size`): never
+NULL, never moves, and the block stays live with at least the minimum chunk of 8 bytes — it
+is NOT a `free` -/
+theorem realloc_zero_keeps_block (cfg : Cfg) (ok : CfgOK cfg) (h : Heap) (p sz : Nat) (hr : Reach cfg h)
+    (h8 : 8 ≤ p) (hl : lookup (p - 8) h.live = some sz) :
+    ∃ r, realloc cfg h (some p) 0 = some r ∧ r.ret = some p ∧
+      ∃ s, lookup (p - 8) r.h.live = some s ∧ 8 ≤ s := by
+  obtain ⟨r, hs⟩ := realloc_total (cfg := cfg) (n := 0) h8 hl
+  have hsz := ((hr.inv ok).wfL _ (lookup_mem hl)).1
+  simp only at hsz
+  have hlen : minLen (roundLen cfg.W 0) = 8 := by simp [roundLen, minLen]
+  have hret : r.ret = some p := (realloc_in_place_iff cfg ok h p 0 sz r hr hl hs).2 (Or.inl (by rw [hlen]; exact hsz))
+  obtain ⟨s, h1, _, _, _, _⟩ := realloc_returns_valid_block cfg ok h p 0 sz p r hr hl hs hret
+  have hw := ((realloc_inv cfg ok h (some p) 0 r (hr.inv ok) hs).wfL _ (lookup_mem h1)).1
+  exact ⟨r, hs, hret, s, h1, hw⟩
+
+/-- a request from a critical context (interrupt handler) aborts before it touches the heap —
+except `free(NULL)`, which returns first; at level 0 it is the ordinary request.  The cells an
+iteration of igris::pool dereferences (`operator*` = `cell(_num)`) are the live cells. -/
+theorem heap_critical_context_aborts (lvl base : Nat) (cfg : Cfg) (h : Heap) (op : Op) :
+    (op ≠ .free none → 0 < lvl → stepCtx lvl base cfg h op = none) ∧
+    (stepCtx 0 base cfg h op = some (stepA base cfg h op)) ∧
+    (stepCtx lvl base cfg h (.free none) = some (some ⟨h, none, []⟩)) := by
+  refine ⟨fun hne hl => ?_, ?_, rfl⟩
+  · cases op with
+    | malloc n => simp [stepCtx, hl]
+    | free p => cases p with
+      | none => exact absurd rfl hne
+      | some p => simp [stepCtx, hl]
+    | realloc p n => simp [stepCtx, hl]
+  · cases op with
+    | malloc n => simp [stepCtx]
+    | free p => cases p <;> simp [stepCtx, stepA]
+    | realloc p n => simp [stepCtx]
+
+theorem ipool_iterator_deref (e n : Nat) (he : 0 < e) (ops : List IOp) (s : IState)
+    (hr : irun ⟨IPool.init (n * e) e, []⟩ ops = some s) :
+    ∀ i ∈ s.pool.iterAll, s.pool.cell i.toNat ∈ s.live ∧ s.pool.cell i.toNat + e ≤ n * e := by
+  intro i hi
+  obtain ⟨_, _, _, hel⟩ := irun_inv he (IInv.init e n he) hr
+  obtain ⟨h0, hn, hmem⟩ := (ipool_iteration_visits_live_cells e n he ops s hr).2.2.1 i hi
+  have hcell : s.pool.cell i.toNat = i.toNat * e := by simp [IPool.cell, hel, Nat.mul_comm]
+  rw [hcell]
+  refine ⟨hmem, ?_⟩
+  have hlt : i.toNat < n := by omega
+  exact cell_in_zone hlt
 
 end Igris.C10
